@@ -467,6 +467,11 @@ fn gen_insn(mode: &str, ci: usize, shape: Option<usize>, fault: &str, r: &mut Rn
     let (mut ins, has_mem) = build(*code, shape, r, k as usize)?;
     let fs = FS_BASE;
     let gs = 0x2000;
+    if matches!(code.mnemonic(), Mnemonic::Shl | Mnemonic::Shr) && (0..code.op_code().op_count()).any(|op| code.op_code().op_kind(op) == K::cl) {
+        // counts 0, 1, ..., 0x20, 0x40 (zero after masking), 0xff: an enumerated axis like the immediates
+        let c = IMM_SPECIALS[(k as usize) % 12] & 0xff;
+        gpr[2] = (gpr[2] & !0xff) | c; // RCX is index 2 in GPR64 order
+    }
     if has_mem {
         // the size is known only after a first encode/decode round trip: use a generous guess, then refine
         let probe = {
@@ -682,7 +687,7 @@ fn gen_c09(seed: u64, idx: u64) -> Sc {
     let code = catalogue()[ci].0;
     let (rm, only) = mem_capable(code);
     let shape = if area != 0 && only && !rm { Some(0) } else { shape };
-    match gen_insn("c09", ci, shape, "none", &mut r, 14 + k) {
+    match gen_insn("c09", ci, shape, "none", &mut r, if k % 2 == 0 { [0u64, 6, 8][(k as usize / 2) % 3] } else { 14 + k }) {
         Some(mut sc) => {
             match area {
                 0 => sc.prot_data = mask,
@@ -1125,18 +1130,11 @@ fn run_insn(sc: &Sc, ctx: &mut Ctx) {
         }
         _ => {
             let ok = matches!(out, StepOut::Ok(_));
-            // C09 speaks about accesses that happen. ax performs no read for a CMOVcc whose condition
-            // is false and no write for a SETcc it decides to skip; a denied access that did not take
-            // place is not a permission bypass (its absence is C06's finding), unless memory changed.
-            let mut relevant = relevant;
-            if prop == "C09" && verdict == Some(true) && ok {
-                let after = observe(&m.ax).areas;
-                let is_cmov = matches!(ins.mnemonic(), Mnemonic::Cmove | Mnemonic::Cmovne | Mnemonic::Cmovae);
-                if (why == "read_denied" && is_cmov) || (why == "write_denied" && after == before) {
-                    relevant = false;
-                    ctx.probe("access_not_performed");
-                }
-            }
+            // An instruction whose operand is architecturally read (CMOVcc source) or written (SETcc, RMW with a
+            // zero count) completes on memory that forbids it only if the check was skipped together with the
+            // access; that is judged here as strictly as a performed access (the known CMOVcc / SETB defects are
+            // listed under C09 as well as under C06).
+            let relevant = relevant;
             if let (Some(f), true) = (verdict, relevant) {
                 if f == ok {
                     let cls = if prop == "C09" {
